@@ -52,8 +52,13 @@ class Prog:
             params.append("deps: &crate::Conc")
         leaf = 1
         logs = []
+        hyg = p.get("hyg", False)
         for j, k in enumerate(p["params"], start=1):
-            if k == "i32":
+            if k == "i32" and hyg and j <= 2:
+                # both are called `a2` in the expanded code: `$p` (from the macro caller) and the literal `a2` of the macro body
+                nm = "$p" if j == 1 else "a2"
+                params.append(f"{nm}: i32"); logs.append(f'format!("{{:?}}", {nm})'); leaf += 1
+            elif k == "i32":
                 params.append(f"a{j}: i32"); logs.append(f'format!("{{:?}}", a{j})'); leaf += 1
             elif k == "string":
                 params.append(f"s{j}: String"); logs.append(f"s{j}.clone()"); leaf += 1
@@ -99,6 +104,12 @@ class Prog:
         return f"{vis}{'async ' if p['async'] else ''}fn f{fi}{g}({', '.join(params)}) -> String {body}"
 
     def item_text(self):
+        txt = self.item_text_plain()
+        if self.p.get("hyg", False):
+            return f"macro_rules! define_item {{ ($p:ident) => {{\n{txt}\n}} }}\ndefine_item!(a2);\n"
+        return txt
+
+    def item_text_plain(self):
         p = self.p
         attr = f"#[::entrait::entrait({ATTR[p['opt']]}{', no_deps' if p['deps'] == 'nodeps' else ''})]"
         if p["mode"] == "fn":
